@@ -6,7 +6,7 @@ using namespace vg;
 
 static bool gThorough = false;
 static const float WEIGHTS[6] = {0.25f, 0.5f, 1.0f, 1.5f, 2.5f, 3.0f};
-static const float SCALES[6] = {0.25f, 0.5f, 2.0f, 8.0f, 2.5f, 7.0f};  // first four: bitwise; last two: tolerance
+static const float SCALES[8] = {0.25f, 0.5f, 2.0f, 8.0f, 5.9604645e-8f /* 2^-24 */, 1048576.0f /* 2^20 */, 2.5f, 7.0f};  // first six: bitwise; last two: tolerance
 
 struct Inst {
   int n;          // movable cells
@@ -84,8 +84,18 @@ static vf::Verdicts eval(const Inst &in, vf::Ctx &ctx) {
     // the penalty is not a user-visible weight: scale it through its initial value
     t.devs.push_back({F_initialValue, 0.03 * 4.0});
     Circuit a = build(s), b = build(t);
-    CallResult ra = guarded([&] { a.placeGlobal(makeParams(s)); });
-    CallResult rb = guarded([&] { b.placeGlobal(makeParams(t)); });
+    // in.penalty == 1: a callback widens the movable cells at the first upper-bound step (allowed during global placement)
+    auto resizer = [&](Circuit &c) {
+      return [&c, done = false](PlacementStep st) mutable {
+        if (st != PlacementStep::UpperBound || done) return;
+        done = true;
+        std::vector<int> w = c.cellWidth();
+        for (int i = 0; i < c.nbCells(); ++i) if (!c.cellIsFixed()[i] && w[i] > 0) w[i] += 1;
+        c.setCellWidth(w);
+      };
+    };
+    CallResult ra = guarded([&] { if (in.penalty == 1) a.placeGlobal(makeParams(s), PlacementCallback(resizer(a))); else a.placeGlobal(makeParams(s)); });
+    CallResult rb = guarded([&] { if (in.penalty == 1) b.placeGlobal(makeParams(t), PlacementCallback(resizer(b))); else b.placeGlobal(makeParams(t)); });
     if (ra.threw || rb.threw) { fail("placeGlobal-throws", ra.what + rb.what); return out; }
     if (a.cellX() != b.cellX() || a.cellY() != b.cellY())
       fail("placement-changes-under-common-weight-factor", "x4: " + placementStr(a) + " vs " + placementStr(b));
@@ -110,14 +120,14 @@ static vf::Verdicts eval(const Inst &in, vf::Ctx &ctx) {
   std::vector<float> r0 = base.solve(pl, params);
   std::vector<float> r0Pen = base.solveWithPenalty(pl, target, strength, params);
   float span = 40.0f;
-  for (int k = 0; k < 6; ++k) {
+  for (int k = 0; k < 8; ++k) {
     float sc = SCALES[k];
     NetModel m = buildModel(in, sc);
     std::vector<float> st2(in.n);
     for (int i = 0; i < in.n; ++i) st2[i] = strength[i] * sc;
     std::vector<float> aStar = m.solveStar(params), a = m.solve(pl, params), aPen = m.solveWithPenalty(pl, target, st2, params);
     ctx.count("solves", 3);
-    if (k < 4) {
+    if (k < 6) {
       if (!sameBits(aStar, r0Star)) fail("solveStar-not-invariant-under-power-of-two-scaling", "factor " + std::to_string(sc));
       if (!sameBits(a, r0)) fail("solve-not-invariant-under-power-of-two-scaling", "factor " + std::to_string(sc));
       if (!sameBits(aPen, r0Pen)) fail("solveWithPenalty-not-invariant-under-power-of-two-scaling", "factor " + std::to_string(sc));
@@ -168,9 +178,9 @@ int main(int argc, char **argv) {
   c.rule =
       "NetModel over 2..4 movable cells x 8 net structures (two-pin chains, fixed pins, 3- and 4-pin nets, repeated cells, offsets) x every weight tuple in "
       "{0.25,0.5,1,1.5,2.5,3}^nets (quick: first three nets vary) x 4 net models x 3 penalty variants x 3 input placements (spread, clumped, reversed): solveStar / solve / "
-      "solveWithPenalty under a common factor {1/4,1/2,2,8} on all weights and penalty strengths must return bit-identical vectors, under {2.5,7} the same within 1% of the span when "
+      "solveWithPenalty under a common factor {1/4,1/2,2,8,2^-24,2^20} on all weights and penalty strengths must return bit-identical vectors, under {2.5,7} the same within 1% of the span when "
       "every cell is anchored; the initial star solution must satisfy the normal equations of the documented weighted least-squares model (checked in double); plus "
-      "Circuit::placeGlobal on circuits differing by a common factor 4; non-trivial = a fractional weight is present";
+      "Circuit::placeGlobal on circuits differing by a common factor 4, without and with a callback that resizes the cells at the first upper-bound step; non-trivial = a fractional weight is present";
   c.bounds = "n<=4, <=4 nets";
   c.enumerate = [=](const std::function<void(const Inst &)> &f) {
     for (int n = 2; n <= 4; ++n)
@@ -188,7 +198,8 @@ int main(int argc, char **argv) {
       }
     for (int st = 0; st < 4; ++st)
       for (int wt = 0; wt < 36; ++wt)
-        for (int model = 0; model < 4; ++model) f(Inst{0, st, wt * 7 % 216, model, 0, 0, 1});
+        for (int model = 0; model < 4; ++model)
+          for (int resize = 0; resize < 2; ++resize) f(Inst{0, st, wt * 7 % 216, model, resize, 0, 1});
   };
   c.encode = enc;
   c.decode = dec;
